@@ -20,7 +20,7 @@ MINE = {"OutcomePreserved", "NoDuplicateRequest", "EventuallyTerminal", "NoEscap
 
 def scenario_set(thorough):
     base = {s["id"]: s for s in S.protocol_scenarios() + S.failure_scenarios()}
-    ids = ["pass-chain", "wait-chain", "choice", "task-chain", "task-task", "task-fails", "task-catch", "task-retry", "par-pass", "par-task-end",
+    ids = ["pass-chain", "wait-chain", "exec-timeout-wait-fits", "choice", "task-chain", "task-task", "task-fails", "task-catch", "task-retry", "par-pass", "par-task-end",
            "map-task", "map-task-mc1", "map-pass"]
     if thorough:
         ids += ["two-execs", "par-task-next", "par-wait-task", "nested", "par-2step", "par-fail-unhandled",
@@ -195,6 +195,17 @@ def run(tier_name=None, replay=None):
                             add(s, r, twin, {"frame": kf}, "first", True, list(r.schedule), over)
                             counters["continuations"] += 1
                         explore_dfs(s, budget=(60 if thorough else 8), on_run=on_run, crash={"frame": kf}, **over)
+                # crashes in the quiet periods (the engine only waits for a timer or a reply): part of the way through,
+                # back a little later -- deadlines carried by the redelivered events must not start afresh
+                if sched == []:
+                    nq = sum(1 for i, e in enumerate(twin.events) if e["k"] == "frame" and i > 0 and e["t"] > max(x["t"] for x in twin.events[:i] if "t" in x))
+                    for q in range(min(nq, 4)):
+                        for frac in ((0.5, 0.9) if thorough or q == 0 else (0.9,)):
+                            c = {"quiet": q, "frac": frac, "down": 0.05}
+                            r = run_once(s, crash=c, **over)
+                            if r.crash:
+                                add(s, r, twin, c, "first", True, sched, over)
+                                counters["quiet_period_crashes"] += 1
                 for kf, nops in enumerate(ops_per_frame[:nframes]):
                     for j in range(nops):
                         if not thorough and (kf + j) % 2:
@@ -250,7 +261,7 @@ def run(tier_name=None, replay=None):
                   "rule": "one evaluation = one run of the real engine with one crash point (a boundary between two handler invocations, or after the j-th broker "
                           "operation inside a handler), restart with redelivery, continuation to D1, validated by TLC against Trace.tla together with the outcome of its "
                           "crash-free twin; distinct = distinct (scenario, schedule, crash point, continuation order); non-trivial = the crash actually happened",
-                  "samples": samples, "boundary_crashes": counters["boundary"], "continuation_orders_beyond_first_last": counters["continuations"], "in_handler_crashes": counters["inside"],
+                  "samples": samples, "boundary_crashes": counters["boundary"], "quiet_period_crashes": counters["quiet_period_crashes"], "continuation_orders_beyond_first_last": counters["continuations"], "in_handler_crashes": counters["inside"],
                   "states": stats["states"] + mstats["states"], "transitions": stats["transitions"] + mstats["transitions"], "traces_validated_against_impl": counters["runs"],
                   "failed_clauses": {"%s|%s|%s" % kk: n for kk, n in nfail.items()}, "exhaustive": True,
                   "scenarios": sorted(by_scn), "tlc_cpu_s": stats["tlc_cpu_s"],
